@@ -326,6 +326,16 @@ class Prov(object):
                 if v[0] in ('VIEW', 'SAME'):
                     self.emit('inplace-call', c, stmt, v, extra='np.' + npf)
                 return FRESH
+            if npf in ('ma.fix_invalid', 'nan_to_num'):
+                # repair of non-finite cells; with copy=False the data (and mask) of the argument itself are overwritten
+                cp = kw(c, 'copy')
+                arr = argvals[0] if argvals else kwvals.get('a', kwvals.get('x', UNK))
+                if cp is not None and not (isinstance(cp, ast.Constant) and cp.value is True):
+                    if arr[0] in ('VIEW', 'SAME'):
+                        self.emit('inplace-call', c, stmt, arr, extra='np.%s(copy=False) overwrites the non-finite cells of its argument' % npf)
+                        return ('VIEW', arr[1])
+                    return FRESH if arr[0] == 'FRESH' else UNK
+                return FRESH
             if npf in NP_MASKED_CTORS:
                 # np.ma.masked_*(…, copy=True) by default; with copy=False the result is a view of the array argument and, when that
                 # argument is already masked, the new condition is OR-ed into its mask array in place
@@ -368,6 +378,12 @@ class Prov(object):
                 if m in FILE_MUTATOR_METHODS:
                     self.emit('mutator-call', c, stmt, recv, extra=m)
                     # values= passed to createVariable is a result sink
+                if m == 'getVarlist':
+                    # the IOAPI variable-list query rewrites VAR-LIST / NVARS / the VAR dimension of its receiver unless update=False
+                    upd = kw(c, 'update') or (c.args[0] if c.args else None)
+                    if not (isinstance(upd, ast.Constant) and upd.value is False):
+                        self.emit('mutator-call', c, stmt, recv, extra='getVarlist(update=True)')
+                    return FRESH
                 if m == 'createVariable' and 'values' in kwvals:
                     self.emit('result-values', c, stmt, recv, value=kwvals['values'], extra=m)
                 if m in ('createVariable', 'copyVariable'):
